@@ -45,6 +45,7 @@ static int ncv = 0;
 static std::vector<int> bar_size;
 static std::vector<int> mbox_perm; // permanent receiver (actor number) of each mailbox, 0 = none
 static int nmq   = 0;
+static long link_lat = 0; // latency of the link, in ticks (timed platform)
 static bool timed = false; // timed platform: one host per actor, dedicated FATPIPE link, exact durations
 static std::vector<ActorSpec> actors;
 
@@ -296,6 +297,8 @@ static void parse(const char* path)
       int r = 0;
       ls >> r;
       mbox_perm.push_back(r);
+    } else if (w == "@lat") {
+      ls >> link_lat;
     } else if (w == "@timed") {
       int t = 0;
       ls >> t;
@@ -342,7 +345,7 @@ int main(int argc, char** argv)
   // timed platform: speeds and bandwidth are powers of two so that every duration is an exact number of ticks
   for (int i = 0; i < nhosts; i++)
     hosts.push_back(zone->add_host("h" + std::to_string(i + 1), timed ? 1024.0 / TICK : 1e9));
-  auto* link = timed ? zone->add_link("l", 1.0 / TICK)->set_latency(0)->set_sharing_policy(sg4::Link::SharingPolicy::FATPIPE)
+  auto* link = timed ? zone->add_link("l", 1.0 / TICK)->set_latency(link_lat * TICK)->set_sharing_policy(sg4::Link::SharingPolicy::FATPIPE)
                      : zone->add_link("l", 1e6)->set_latency(1e-4);
   the_link = link;
   for (int i = 0; i < nhosts; i++)
